@@ -2,6 +2,7 @@
 
 use crate::gen::GenCfg;
 use crate::hist::*;
+use crate::model::Op;
 use crate::obs;
 use crate::util::*;
 use serde_json::{json, Value};
@@ -220,6 +221,92 @@ fn standoff_roundtrip(rep: &mut Report, h: &mut History, dir: &str, before: &Val
     let _ = std::fs::remove_dir_all(&dir2);
 }
 
+/// save, change the store a little, save again: the stand-off files of exactly the changed members must be rewritten
+fn standoff_incremental(rep: &mut Report, h: &mut History, dir: &str, rng: &mut Rng, cfg: GenCfg) {
+    let _ = std::fs::remove_dir_all(dir);
+    std::fs::create_dir_all(dir).expect("workdir");
+    let rhandles: Vec<TextResourceHandle> = h.store.resources().map(|r| r.handle()).collect();
+    for (i, rh) in rhandles.iter().enumerate() {
+        let r: &mut TextResource = h.store.get_mut(*rh).expect("resource");
+        // (other names than in the round trip above, so that every member is written to this directory)
+        r.set_filename(&format!("inc-res{}.txt", i));
+    }
+    let shandles: Vec<AnnotationDataSetHandle> = h.store.datasets().map(|s| s.handle()).collect();
+    for (i, sh) in shandles.iter().enumerate() {
+        let s: &mut AnnotationDataSet = h.store.get_mut(*sh).expect("dataset");
+        s.set_filename(&format!("inc-set{}.annotationset.stam.json", i));
+    }
+    let path = format!("{}/store.store.stam.json", dir);
+    if !matches!(guard(|| h.store.to_file(&path)), Ok(Ok(()))) {
+        let _ = std::fs::remove_dir_all(dir);
+        return; // judged by the plain stand-off variant
+    }
+    // a few more operations on the saved store
+    let mut g = crate::gen::Gen::new(cfg);
+    for _ in 0..60 {
+        let _ = g.fresh_id(rng, "z");
+    }
+    let mut kinds: Vec<&'static str> = Vec::new();
+    for _ in 0..rng.range(1, 4) {
+        let op = g.gen_op(rng, &h.model);
+        if matches!(op, Op::AddResource { .. } | Op::AddDataset { .. } | Op::ProtectText(_)) {
+            continue; // new members have no stand-off file name; not what this variant is about
+        }
+        let r = h.step(&op);
+        if !r.agreement.in_step() {
+            let _ = std::fs::remove_dir_all(dir);
+            return;
+        }
+        if matches!(r.agreement, Agreement::Ok) {
+            kinds.push(op.kind());
+        }
+    }
+    if kinds.is_empty() {
+        let _ = std::fs::remove_dir_all(dir);
+        return;
+    }
+    kinds.sort();
+    kinds.dedup();
+    let Ok(before) = obs::observe(&h.store, false, true) else {
+        let _ = std::fs::remove_dir_all(dir);
+        return;
+    };
+    rep.eval();
+    rep.distinct(&format!("incremental|{}", kinds.join("+")));
+    match guard(|| h.store.save()) {
+        Ok(Ok(())) => {}
+        Ok(Err(e)) => {
+            rep.violation(format!("C05/standoff-incremental/save-error/after:{}", kinds.join("+")), json!({"error": format!("{}", e), "history": h.replay_json()}));
+            let _ = std::fs::remove_dir_all(dir);
+            return;
+        }
+        Err(p) => {
+            rep.violation(format!("C05/standoff-incremental/save-panic/{}", p.class()), json!({"panic": p.msg, "at": p.loc, "history": h.replay_json()}));
+            let _ = std::fs::remove_dir_all(dir);
+            return;
+        }
+    }
+    match guard(|| AnnotationStore::from_file(&path, Config::default().with_debug(false))) {
+        Ok(Ok(loaded)) => match obs::observe(&loaded, false, true) {
+            Ok(after) => {
+                compare(rep, "C05", &format!("standoff-incremental/after:{}", kinds.join("+")), &before, &after, h, json!({"operations_after_first_save": kinds}));
+            }
+            Err(p) => rep.violation(format!("C05/standoff-incremental/observe-reloaded-panic/{}", p.class()), json!({"panic": p.msg, "history": h.replay_json()})),
+        },
+        Ok(Err(e)) => {
+            let msg = format!("{}", e);
+            let empty_member = h.model.resources.values().any(|r| r.text.is_empty()) || h.model.sets.values().any(|s| s.next_key == 0 && s.next_data == 0);
+            if msg.contains("No such file") && empty_member {
+                rep.violation("C05/standoff/explained:stand-off-file-of-empty-member-never-written", json!({"error": msg, "history": h.replay_json()}));
+            } else {
+                rep.violation(format!("C05/standoff-incremental/reload-error/after:{}/{}", kinds.join("+"), normalise_msg(&msg).chars().take(70).collect::<String>()), json!({"error": msg, "history": h.replay_json()}));
+            }
+        }
+        Err(p) => rep.violation(format!("C05/standoff-incremental/reload-panic/{}", p.class()), json!({"panic": p.msg, "at": p.loc, "history": h.replay_json()})),
+    }
+    let _ = std::fs::remove_dir_all(dir);
+}
+
 pub fn store_cfg(rng: &mut Rng) -> GenCfg {
     let mut cfg = GenCfg::default();
     cfg.hostile_ids = rng.chance(1, 2);
@@ -254,6 +341,10 @@ pub fn run(p: &Params, rep: &mut Report) {
         let jsonres = k % 2 == 0;
         rep.distinct(&format!("standoff{}|{}|{}", jsonres, h.model.shape(), gaps));
         standoff_roundtrip(rep, &mut h, &dir, &before, jsonres);
+        // (the round trip above works on files of its own; the store in memory is still the original one)
+        let mut cfg2 = store_cfg(&mut rng);
+        cfg2.rm_boost = 4;
+        standoff_incremental(rep, &mut h, &format!("{}-inc", dir), &mut rng, cfg2);
         if k % 61 == 0 {
             rep.sample(json!({"case": k, "history": h.replay_json(), "gaps": gaps, "idless": idless, "variants": ["inline-pretty", "inline-compact", if jsonres {"standoff-json"} else {"standoff-txt"}]}));
         }
